@@ -150,7 +150,9 @@ is ignored by the parser, `p:*` matches nothing.
 
 ### 11.6 Seeded property-breaking changes (detection matrix)
 
-Three rounds of fresh sub-agents (2 x 17 changes, then 17, then 17) were given
+Four rounds of fresh sub-agents (2 x 17 changes, then 17, then 17, then 9 that
+were asked for changes which only manifest on LARGE instances: deep or wide
+documents, long histories, three goroutines, larger capacities) were given
 only a property's text (rounds 2 and 3 also a one-line description of the
 earlier seeds, to force different mechanisms) and a scratch worktree of /repo,
 and asked for changes that break the property while compiling and passing the
@@ -188,6 +190,15 @@ candidate) +U6 (merge-query operands); C12 reverse()/group wrappers go through
 the full iterator protocol; C15 non-ASCII and invalid-regex arguments; C16 +
 per-node computed patterns; C17 + nested calls/axes in every argument position
 of every function, + the sequence extension in the reference grammar.
+Round 4 (size thresholds) led to: "spine" documents of depth 4..6(7) and
+"wide" parents with 5..6 children as additional universes for C01, C02, C03,
+C11, C12, C13 (the T(<=N) universes cannot reach depth 5 or five siblings
+under one element within their node budget); repetition histories (one
+operation 3..6 times) for C04; three-thread pool scenarios for C05;
+capacities 4..6 with a 7-key alphabet for C16. These are the seeds marked
+"after the check was strengthened" among the E rows; before, they were only
+within reach of the thorough tier (depth) or of no tier (five siblings,
+capacity 4).
 Three pre-existing engine defects were also reported by a sub-agent as a side
 remark (stale state in nested descendant steps and merge queries inside
 predicates; cursor left moved between the operands of a comparison); the
